@@ -11,6 +11,7 @@ import (
 	"sort"
 	"strings"
 
+	"golang.org/x/tools/go/cfg"
 	"golang.org/x/tools/go/packages"
 	"golang.org/x/tools/go/types/typeutil"
 )
@@ -29,6 +30,10 @@ type Fn struct {
 	lits     []*Fn
 	litsDone bool
 	store    map[types.Object]ast.Expr // transient: path store used by CanonSt
+	// transient: start of the path enumeration in progress (Graph.Exec) and the blocks reachable from it
+	execFrom    *Loc
+	execGraph   *Graph
+	regionCache map[*cfg.Block]bool
 }
 
 func (f *Fn) Body() *ast.BlockStmt {
